@@ -495,12 +495,15 @@ def run(ctx):
     for h in hist_in:
         for r in h["reqs"]:
             reqs.setdefault(akey(r["a"]), r)
-    for s in SHAPES:  # the base form of every shape is always included
-        a = {"s": s, "nm": 0, "src": "var", "val": 0, "dir": 0, "ds": "var", "op": 1, "fr": 0, "mo": 0}
-        reqs.setdefault(akey(a), concrete(a))
     rkeys = sorted(k for k in reqs if reqs[k]["a"]["val"] != INVALID)
     rng.shuffle(rkeys)
-    base = [akey({"s": s, "nm": 0, "src": "var", "val": 0, "dir": 0, "ds": "var", "op": 1, "fr": 0, "mo": 0}) for s in SHAPES]
+    # the base form of every shape (all four skip/include decisions where the shape has directives) is always included
+    base = []
+    for s in SHAPES:
+        for d in (range(4) if s in HAS_DIR else [0]):
+            a = {"s": s, "nm": 0, "src": "var", "val": 0, "dir": d, "ds": "var", "op": 1, "fr": 0, "mo": 0}
+            reqs.setdefault(akey(a), concrete(a))
+            base.append(akey(a))
     others = [k for k in rkeys if k not in base][:(30 if quick else 150)]
     det_in, by_rid = [], {}
     for k in base + others:
